@@ -40,7 +40,8 @@ RULE = ("(A) scripted units: throw-away Unit subclasses whose get_root_hook_resu
         "shapes, feedback models flow stress / spread / temperature registered as extra hook implementations (removed in "
         "finally), precision and limit set through Config or per unit; every case: fresh vs fresh vs deep copy, solve twice, "
         "deep copy of the solved sequence, a fault (8 exception types, k uniform over the clean call count of the chosen "
-        "hook, or a value - flow_stress / temperature - missing on the incoming profile) then retry with the cause removed "
+        "hook, or a value - flow_stress / temperature - missing on the incoming profile, or an unusable explicit "
+        "flow_stress on it) then retry with the cause removed "
         "vs fresh; (C) histories of init_solve calls with generated incoming entries (root-hook and other names, values "
         "changing / vanishing / new) on a plain unit, a transport and a roll pass, interleaved with writes to / deletions "
         "from the out profile. non-trivial = some unit needed >= 2 iterations after its first one / a scripted history "
@@ -302,14 +303,16 @@ def build_sequence(case):
     return PassSequence([build_unit(u, f"U{i}", kw0) for i, u in enumerate(case["units"])], label="S", **kw0)
 
 
-def build_in_profile(spec, without=None):
-    """`without`: name of a value to leave out (the deficient incoming profile of the missing-value fault)"""
+def build_in_profile(spec, without=None, extra=None):
+    """`without`: name of a value to leave out (the deficient incoming profile of the missing-value fault);
+    `extra`: explicit values to add (the spoilt incoming profile of the bad-value fault)"""
     from pyroll.core import Profile
     kw = dict(temperature=spec.get("temperature", 1200 + 273.15), material=["C45", "steel"], density=7.5e3,
               specific_heat_capacity=690, strain=spec.get("strain", 0), length=spec.get("length", 1.0))
     if spec.get("flow_stress") is not None:
         kw["flow_stress"] = spec["flow_stress"]
     kw.pop(without, None)
+    kw.update(extra or {})
     s, kind = spec["size"], spec["kind"]
     if kind == "round":
         return Profile.round(diameter=s, **kw)
@@ -533,6 +536,10 @@ def gen_case(rng):
         case["fault"] = {"missing": "flow_stress"}
     elif (models.get("flow_stress", {}).get("beta") or "temperature" in models) and rng.random() < 0.3:
         case["fault"] = {"missing": "temperature"}
+    elif "flow_stress" in models and rng.random() < 0.2:
+        # an explicit value on the incoming profile that cannot be computed with (it shadows the registered model);
+        # removing the cause = leaving it out, so that the retry's incoming profile has FEWER entries than the aborted one
+        case["fault"] = {"extra": {"flow_stress": "not-a-number"}}
     if rng.random() < 0.5:
         si = {"temperature": spec_in["temperature"] - rng.choice([60.0, 150.0])}
         if "flow_stress" in spec_in and rng.random() < 0.7:
@@ -1223,8 +1230,8 @@ def run_case(ctx, case, lines, pending):
     fault = dict(case.get("fault") or {})
     inj = {"hook": fault.get("hook", "unit.power"), "type": fault.get("type", "ValueError"), "k": None}
     with Registered(case, inj) as reg, Recorder() as rec:
-        def ip(without=None):
-            return build_in_profile(case["in"], without)
+        def ip(without=None, extra=None):
+            return build_in_profile(case["in"], without, extra)
         try:
             A = build_sequence(case)
         except Exception as e:
@@ -1320,6 +1327,14 @@ def run_case(ctx, case, lines, pending):
                 ctx.count("fault:missing-value-not-needed")
             else:
                 ctx.count("fault:missing-" + fault["missing"])
+                after_abort(ctx, case, rec, E, e1, a1, ip, lines, pending)
+        elif fault.get("extra"):
+            E = build_sequence(case)
+            e1 = solve_rec(rec, E, ip(extra=fault["extra"]), expect_fault=True)
+            if e1.err is None:
+                ctx.count("fault:bad-value-not-used")
+            else:
+                ctx.count("fault:bad-value-" + "-".join(sorted(fault["extra"])))
                 after_abort(ctx, case, rec, E, e1, a1, ip, lines, pending)
         elif any(counts.values()):
             if not counts.get(inj["hook"]):
@@ -1435,6 +1450,13 @@ CORPUS = [
                {"type": "pass", "groove": "round", "scale": 1.0, "disks": 0}],
      "prec": 1e-3, "max_iter": 100, "via": "config", "fault": {"missing": "flow_stress"},
      "second_input": {"flow_stress": 80e6}},
+    # an explicit unusable value on the incoming profile shadows the flow-stress model and aborts the first solve; the retry
+    # gets the profile without it (fewer entries than the aborted one)
+    {"in": {"kind": "round", "size": 30e-3, "length": 1, "strain": 0}, "models": {"flow_stress": {"beta": 0}},
+     "units": [{"type": "pass", "groove": "oval", "scale": 1.0, "disks": 0},
+               {"type": "transport", "duration": 1, "disks": 2},
+               {"type": "pass", "groove": "round", "scale": 1.0, "disks": 0}],
+     "prec": 1e-3, "max_iter": 100, "via": "config", "fault": {"extra": {"flow_stress": "not-a-number"}}},
     # thermally coupled feedback (force -> temperature -> flow stress -> force), tight precision, nested sequence
     {"in": {"kind": "square", "size": 30e-3, "length": 2.5, "strain": 0.3},
      "models": {"flow_stress": {"beta": 4e-3}, "temperature": {"dT": 150.0}},
